@@ -118,7 +118,7 @@ def load_attrs():
     """-> {code: [(flags, asn4, hex, source)]}"""
     out = {}
     for code, flags, asn4, hx, src in _rows('attrs.txt'):
-        out.setdefault(int(code), []).append((int(flags, 16), asn4 == '1', hx, src))
+        out.setdefault(int(code), []).append((int(flags, 16), 'ap' if asn4 == 'ap' else asn4 == '1', hx, src))
     return out
 
 
@@ -140,10 +140,12 @@ def load_confs():
 _NEG = {}
 
 
-def neg(asn4=True, ap=False, out=True):
-    k = (asn4, ap, out)
+def neg(asn4=True, ap=False, out=True, extnh=False):
+    """extnh: RFC 8950 extended next hop negotiated too; only used for the members whose next hop needs it (with it on,
+    the MP_REACH decoder refuses or crashes on every family outside Family.size's IP rows - see notes/C15.md)."""
+    k = (asn4, ap, out, extnh)
     if k not in _NEG:
-        _NEG[k] = exa.negotiated_all_families(FAMILIES, asn4, ap, out)[1]
+        _NEG[k] = exa.negotiated_all_families(FAMILIES, asn4, ap, out, extnh)[1]
     return _NEG[k]
 
 
@@ -352,7 +354,10 @@ def nlri_laws(afi, safi, action, b, pid):
         p1 = pack_nlri(o, ap)
     except Exception as e:  # noqa: BLE001
         return o, v + [(f'pack-exception:{type(e).__name__}', f'pack_nlri of the object decoded from {data.hex()} raised {type(e).__name__}: {str(e)[:160]}')]
-    if p1 != data:
+    # RFC 8277 2.4: the label field of a withdrawn labeled NLRI (0x800000 / 0x000000 conventions) is ignored on receipt:
+    # the decoder need not keep it, only the WEAK laws apply to those members
+    compat = action == 'W' and safi in (4, 128)
+    if p1 != data and not compat:
         v.append(('pack-differs', f'pack(unpack(b)) != b: b={data.hex()} packed={p1.hex()}'))
     if pack_nlri(o, ap, asn4=False) != p1:
         v.append(('asn4-dependent', f'NLRI bytes differ between a 2-byte and a 4-byte AS session for {data.hex()}'))
@@ -380,8 +385,9 @@ def nlri_laws(afi, safi, action, b, pid):
         except Exception as e:  # noqa: BLE001
             v.append((f'cross-addpath:{type(e).__name__}', f'{data.hex()}: {str(e)[:160]}'))
         v += ip_meaning(afi, safi, action, b, pid, o)
-    else:
+    elif not v:
         # ADD-PATH negotiated for a family whose codec ignores it: must be ignored in both directions
+        # (only looked at when the plain round trip holds: otherwise it is the same failure again)
         try:
             pa = pack_nlri(o, True)
             oa, la = unpack_nlri(afi, safi, pa, action, True)
@@ -487,6 +493,8 @@ def attr_laws(code, flags, asn4, value):
             v.append((f're-decode-refused:{type(e).__name__}{tag}', f'what ExaBGP encoded ({p1.hex()[:120]}) is refused by its own decoder: {str(e)[:160]}'))
         r, bad = render_attr(a)
         v += bad
+    seen = {law for law, _ in v if not law.endswith(':asn2-session')}
+    v = [(law, what) for law, what in v if not (law.endswith(':asn2-session') and law[:-len(':asn2-session')] in seen)]
     return first, v
 
 
@@ -659,9 +667,11 @@ def text_laws(route):
                 v.append((f'text-roundtrip:{fn}{st}:render-differs:{k}', f'{k} of the text object {r1[k][:150]!r}, of the decoded one {r2[k][:150]!r}'))
     except Exception as e:  # noqa: BLE001
         v.append((f'text-roundtrip:{fn}:exception:{type(e).__name__}', f'{n!s}: {type(e).__name__}: {str(e)[:160]}'))
-    # attributes
+    # attributes (registered codes only: an unknown code is carried as a generic attribute, C01/C02's subject)
+    from exabgp.bgp.message.update.attribute import Attribute
+    known = {c for c, _ in Attribute.registered_attributes}
     for code in sorted(route.attributes.keys()):
-        if code > 255:
+        if code not in known:
             continue
         a = route.attributes[code]
         an = f'attr{code}'
@@ -678,23 +688,33 @@ def text_laws(route):
                     continue
                 a2 = coll[a.ID]
                 p2 = bytes(a2.pack_attribute(neg(a4, False)))
+                if a.GENERIC:
+                    # `attribute [ 0x04 0x80 0x... ]` with a known code: same bytes is all that can be asked
+                    if p2 != p:
+                        v.append((f'text-roundtrip:{an}:repack-unstable{tag}', f'{p.hex()[:120]} then {p2.hex()[:120]}'))
+                    continue
+                if not (a2 == a) or (a2 != a):
+                    v.append((f'text-roundtrip:{an}:object-differs{tag}', f'text {str(a)[:80]} ({type(a).__name__}) -> {p.hex()[:80]} -> {str(a2)[:80]} ({type(a2).__name__}) compare unequal'))
+                    continue
                 if p2 != p:
                     v.append((f'text-roundtrip:{an}:repack-unstable{tag}', f'{p.hex()[:120]} then {p2.hex()[:120]}'))
-                if not a.GENERIC and (not (a2 == a) or (a2 != a)):
-                    v.append((f'text-roundtrip:{an}:object-differs{tag}', f'text {str(a)[:80]} ({type(a).__name__}) -> {p.hex()[:80]} -> {str(a2)[:80]} ({type(a2).__name__}) compare unequal'))
-                if not a.GENERIC:
-                    r1, _ = render_attr(a)
-                    r2, _ = render_attr(a2)
-                    for k in r1:
-                        if r1[k] != r2[k]:
-                            v.append((f'text-roundtrip:{an}:render-differs:{k}{tag}', f'{r1[k][:120]!r} vs {r2[k][:120]!r}'))
+                    continue
+                r1, _ = render_attr(a)
+                r2, _ = render_attr(a2)
+                for k in r1:
+                    if r1[k] != r2[k]:
+                        v.append((f'text-roundtrip:{an}:render-differs:{k}{tag}', f'{r1[k][:120]!r} vs {r2[k][:120]!r}'))
+                        break
             except Exception as e:  # noqa: BLE001
                 v.append((f'text-roundtrip:{an}:exception:{type(e).__name__}{tag}', f'{str(a)[:80]}: {type(e).__name__}: {str(e)[:160]}'))
     # the whole UPDATE, the way configuration/check.py check_generation does it
-    for a4 in (True, False):
+    from exabgp.protocol.ip import IP
+    whole = route.nexthop is not IP.NoNextHop and all(c in known or c > 255 for c in route.attributes.keys())
+    for a4 in ((True, False) if whole else ()):
         tag = '' if a4 else ':asn2-session'
         try:
-            nout, nin = neg(a4, ap), neg(a4, ap, out=False)
+            xnh = fam[0] in (1, 2) and getattr(route.nexthop, 'afi', None) is not None and int(route.nexthop.afi) != fam[0]
+            nout, nin = neg(a4, ap, extnh=xnh), neg(a4, ap, out=False, extnh=xnh)
             packed = [bytes(m) for m in UpdateCollection([RoutedNLRI(n, route.nexthop)], [], route.attributes).messages(nout)]
             if not packed:
                 v.append((f'text-roundtrip:update:{fn}:nothing-emitted{tag}', f'{route.extensive()[:200]}'))
@@ -711,11 +731,26 @@ def text_laws(route):
             if str(routed.nexthop) != str(route.nexthop) and str(route.nexthop) not in ('self',):
                 v.append((f'text-roundtrip:update:{fn}:nexthop-differs{tag}', f'{route.nexthop} came back as {routed.nexthop}'))
             again = [bytes(m) for m in UpdateCollection([routed], [], upd.attributes).messages(nout)]
-            if not again or again[0] != packed[0]:
+            if not again or (again[0] != packed[0] and not same_update_modulo_attribute_order(again[0], packed[0])):
                 v.append((f'text-roundtrip:update:{fn}:repack-differs{tag}', f'{packed[0].hex()[:300]} then {(again[0].hex() if again else "")[:300]}'))
         except Exception as e:  # noqa: BLE001
             v.append((f'text-roundtrip:update:{fn}:exception:{type(e).__name__}{tag}', f'{route.extensive()[:120]}: {type(e).__name__}: {str(e)[:160]}'))
-    return v
+    seen = {sig for sig, _ in v if not sig.endswith(':asn2-session')}
+    return [(sig, what) for sig, what in v if not (sig.endswith(':asn2-session') and sig[:-len(':asn2-session')] in seen)]
+
+
+def same_update_modulo_attribute_order(m1, m2):
+    """Two framed UPDATEs that differ only in the order of their path attributes (RFC 4271 5: any order is allowed)."""
+    try:
+        parts = []
+        for m in (m1, m2):
+            body = m[19:]
+            wl = struct.unpack('!H', body[:2])[0]
+            al = struct.unpack('!H', body[2 + wl:4 + wl])[0]
+            parts.append((body[:2 + wl], sorted(wire.walk_attrs(body[4 + wl:4 + wl + al])), body[4 + wl + al:]))
+        return parts[0] == parts[1]
+    except Exception:  # noqa: BLE001
+        return False
 
 
 # ---------------------------------------------------------------------------------------------
@@ -765,9 +800,18 @@ def key_of(desc, o):
         return None
 
 
+def _desc_subtype(fam, d, o):
+    try:
+        if d[0] == 'bytes':
+            return subtype(fam[0], fam[1], bytes.fromhex(d[4]))
+        return subtype(fam[0], fam[1], pack_nlri(o, False))
+    except Exception:  # noqa: BLE001
+        return ''
+
+
 def pair_laws(fam, da, a, ka, db, b, kb, pre_a=None, pre_b=None):
     """Law 4 on the ordered pair (a, b) -> [(signature, what)]"""
-    fn = FAM_NAME[fam]
+    fn = FAM_NAME[fam] + _desc_subtype(fam, da, a)
     v = []
     try:
         eq = a == b
@@ -937,23 +981,28 @@ def attr_family_unit(code, members):
 # ---------------------------------------------------------------------------------------------
 # MP_REACH / MP_UNREACH: containers; re-encoded through the collection the UPDATE encoder uses
 # ---------------------------------------------------------------------------------------------
-def mp_laws(code, flags, value):
+def mp_laws(code, flags, value, ap=False):
     from exabgp.bgp.message.update.attribute import Attribute
     from exabgp.bgp.message.update.nlri.collection import MPNLRICollection
 
     v = []
     tlv = wire.encode_attr(code, value, flags=flags)
     try:
-        n_in = neg(True, False, out=False)
+        xnh = False
+        if code == 14 and len(value) > 4:
+            afi, nhl = struct.unpack('!H', value[:2])[0], value[3]
+            xnh = (afi == 1 and nhl in (16, 24, 32)) or (afi == 2 and nhl in (4, 12))
+        n_in = neg(True, ap, out=False, extnh=xnh)
+        n_out = neg(True, ap, extnh=xnh)
         a = Attribute.unpack(code, flags, value, n_in)
         if code == 14:
             routed = list(a.iter_routed())
             coll = MPNLRICollection.from_routed(routed, {}, a.afi, a.safi)
-            again = b''.join(coll.packed_reach_attributes(neg(True, False), 65535))
+            again = b''.join(coll.packed_reach_attributes(n_out, 65535))
         else:
             nl = list(a)
             coll = MPNLRICollection(nl, {}, a.afi, a.safi)
-            again = b''.join(coll.packed_unreach_attributes(neg(True, False), 65535))
+            again = b''.join(coll.packed_unreach_attributes(n_out, 65535))
             if len(value) == 3:
                 return v  # an End-of-RIB marker: no NLRI, nothing to re-encode
         if again != tlv:
@@ -1019,7 +1068,7 @@ def attr_member_unit(code, members):
         reset_caches(False)
         res['exec'] += 1
         if code in (14, 15):
-            vs = mp_laws(code, flags, bytes.fromhex(hx))
+            vs = mp_laws(code, flags, bytes.fromhex(hx), ap=(asn4 == 'ap'))
             a = True
         else:
             a, vs = attr_laws(code, flags, asn4, bytes.fromhex(hx))
@@ -1168,6 +1217,7 @@ def run(ctx: core.Ctx) -> None:
     pool = mp.Pool(min(16, os.cpu_count() or 1))
     outcomes = set()
     indexes = []
+    samples = []
     objects = 0
     try:
         for res in pool.imap_unordered(worker, jobs, chunksize=1):
@@ -1180,11 +1230,12 @@ def run(ctx: core.Ctx) -> None:
             for sig, (what, case, n) in res['viol'].items():
                 ctx.violation(sig, what, case)
                 ctx.viol[sig]['count'] += n - 1
-            for s in res['samples']:
-                ctx.sample(s, limit=8)
+            samples += res['samples']
     finally:
         pool.close()
         pool.join()
+    for smp in sorted(samples, key=lambda x: json.dumps(x, sort_keys=True))[::max(1, len(samples) // 8)]:
+        ctx.sample(smp, limit=8)
     # cross-family: one table of every index of every object
     by_idx, by_ridx = {}, {}
     for ih, rh, fam, d in sorted(indexes):
